@@ -1,4 +1,5 @@
 import QipVerif.Lemmas.TranspileRouteDen
+import QipVerif.Lemmas.TranspileTotal
 /-!
 # C13 — transpilation targets the device: native gates, coupled qubits, same unitary
 
@@ -178,6 +179,27 @@ example : refusedName (native .linearSpinChain) .SQRTSWAP = true ∧ refusedName
 
 example : ∃ e, transpile .scQubits 3 [⟨.RX, [0], [], .symb 0⟩, ⟨.SQRTISWAP, [2, 0], [], {}⟩] = .error e :=
   transpile_refuses .scQubits 3 _ ⟨.SQRTISWAP, [2, 0], [], {}⟩ (by simp) (by decide) (by decide)
+
+/-- **transpile_accepts** — the other half of the decision: a circuit of the class none of whose gate
+names is refused by the native stage is transpiled (no stage raises: the rule bodies instantiate on
+library gates, the router is total on well-formed gates, everything the earlier stages emit is again
+a library gate the device accepts).  Together with `transpile_refuses`: a circuit of the class is
+refused **iff** it contains a gate with a refused name. -/
+theorem transpile_accepts (dev : Device) (N : Nat) (gs : List Gate) (hg : ∀ g ∈ gs, InClass N g)
+    (hacc : ∀ g ∈ gs, refusedName (native dev) g.name = false) : ∃ out, transpile dev N gs = .ok out := by
+  obtain ⟨hb, _, _, ht, _⟩ := native_valid dev
+  have key : ∃ b1 b2 inB, splitBasis (.list (native dev)) = .ok (b1, b2, inB) ∧
+      ∀ n ∈ stageNames, dispatchOk b2 inB (pauliName n) = true := by
+    cases dev <;> exact ⟨_, _, _, rfl, by decide⟩
+  obtain ⟨b1, b2, inB, hs, hstage⟩ := key
+  have he : transpile dev N gs = transpileV tables true (deviceSpec dev) N gs := by
+    rw [← source_is_repaired]; rfl
+  rw [he]
+  exact transpileV_total hb hs ht hstage N gs hg (fun g hgm => by
+    rw [← acceptedName_iff hs, accepted_iff_not_refused hs, hacc g hgm]; rfl)
+
+example : (([.X, .Y, .Z, .SNOT, .SQRTNOT, .PHASEGATE, .RX, .RY, .RZ, .CNOT, .CSIGN, .SWAP, .ISWAP, .SQRTISWAP,
+    .TOFFOLI, .FREDKIN, .GLOBALPHASE, .IDLE] : List GName).all fun n => !refusedName (native .linearSpinChain) n) = true := by decide
 
 /-- **The routing stage over ℂ.**  `routeStage` (C07's router run on the converted circuit) preserves
 the denotation of every circuit of shaped gates: C07's `toChain_den_C` transported along the conversion
